@@ -18,21 +18,21 @@ add("C17", "runtime monitoring: boundary monitors on fidelity/trace_distance/par
     TRUST + "Tolerances 1e-7 (5e-6 on mixed-state fidelity values because of the sqrt conditioning).", "DESIGN.md section 5, C17")
 
 add("C20", "runtime monitoring: exhaustive enumeration of the finite single-qubit Clifford library through the real lookup/simplify functions and one-wrapper compiles on both backends, judged by an independent matrix oracle",
-    "The finite space is enumerated completely through the real code: 24 entries, 576 products, every word over {I,H,P,X,Y,Z} up to length 5 (quick) / 7 (thorough), all 24 wrappers x register type x backend x 7 input preparations (incl. an entangled partner), plus sampled non-Clifford matrices that must be rejected.",
+    "The finite space is enumerated completely through the real code: 24 entries, 576 products, every word over {I,H,P,X,Y,Z} up to length 5 (quick) / 7 (thorough), all 24 wrappers x register type x backend x 7 input preparations (incl. an entangled partner), plus sampled non-Clifford matrices that must be rejected. Every shard first overwrites in place whatever arrays / lists the lookup functions hand out (class and list arguments), so the exhaustive part runs on a library whose results a caller has scribbled on.",
     TRUST + "Equality up to global phase with tolerance 1e-9.", "DESIGN.md section 5, C20")
 add("C05", "runtime monitoring: boundary monitors on stabilizer fidelity / inner_product / canonical_form / Stabilizer.__eq__ / Infidelity with dense and closed-form overlap oracles over complete small spaces and random large states",
     "Every ordered pair of stabilizer states on <=2 qubits (thorough: <=3 qubits, 1.17 million pairs) in random generating sets with random destabilizers, plus random pairs up to 10 qubits (word-related, sign-only different, same state in two presentations), is pushed through the real functions and compared with |<a|b>|^2 computed independently.",
     TRUST + "Values are dyadic rationals compared with tolerance 1e-9.", "DESIGN.md section 5, C05")
 add("C11", "runtime monitoring: boundary monitors on inverse_circuit / clifford_from_stabilizer / graph->tableau with an independent Pauli-algebra oracle replaying the returned circuits",
-    "For every ordered generating set of every stabilizer state on <=2 qubits (thorough: <=3 qubits, 181806 presentations), random and Y/sign-heavy states up to 12 qubits and graphs up to 30 vertices, the returned circuit is replayed by the oracle forwards (must reach +Z_1..+Z_n) and backwards from |0..0> (must reproduce the state), and every derived Clifford tableau is checked for validity and for the state it represents.",
+    "For every ordered generating set of every stabilizer state on <=2 qubits (thorough: <=3 qubits, 181806 presentations), random and Y/sign-heavy states up to 12 qubits and graphs up to 30 vertices, the returned circuit is replayed by the oracle forwards (must reach +Z_1..+Z_n) and backwards from |0..0> (must reproduce the state), and every derived Clifford tableau is checked for validity and for the state it represents. Calls on malformed (non-commuting) tableaux of the same size are interleaved and discarded: answers for valid states must not depend on them.",
     TRUST, "DESIGN.md section 5, C11")
 
 add("C07", "runtime monitoring: sys.monitoring probes on every tableau primitive (invariant at a hook + transition check against an independent Pauli-algebra model) under exhaustive one-step and long random operation histories",
-    "Every call of every tableau primitive (nested calls included) is snapshotted at entry and checked at return: binary/symplectic/paired invariants and the exact stabilizer group the operation must produce (conjugation for gates, Aaronson-Gottesman post-condition for measurement, reset, insertion of |0>, removal / partial trace, tensor). Workload: all 11520 two-qubit tableaux x ~70 API calls (thorough; sampled in quick) and random histories up to n = 200 qubits, also through the Stabilizer / MixedStabilizer wrappers. The repository's own test suite is a further workload: it runs unedited under the same passive monitor (vlib/pytest_mon.py). Unitary methods of the Stabilizer / MixedStabilizer wrappers (incl. apply_circuit forward / reversed) are also judged at the wrapper boundary.",
+    "Every call of every tableau primitive (nested calls included) is snapshotted at entry and checked at return: binary/symplectic/paired invariants and the exact stabilizer group the operation must produce (conjugation for gates, Aaronson-Gottesman post-condition for measurement, reset, insertion of |0>, removal / partial trace, tensor). Workload: all 11520 two-qubit tableaux x ~70 API calls (thorough; sampled in quick) and random histories up to n = 200 qubits, also through the Stabilizer / MixedStabilizer wrappers. The repository's own test suite is a further workload: it runs unedited under the same passive monitor (vlib/pytest_mon.py). Unitary methods of the Stabilizer / MixedStabilizer wrappers (incl. apply_circuit forward / reversed) are also judged at the wrapper boundary. Half of the walks branch three tableaux off the same int64 arrays: one driven in place, one walked, one (and the arrays) that must not move.",
     TRUST + "measure_x / measure_y are judged on their outcome only.", "DESIGN.md section 5, C07")
 
 add("C03", "runtime monitoring: boundary monitors on the height functions / emitter count and a sys.monitoring probe on rref, judged by an independent GF(2) entanglement-entropy oracle; solver outputs inspected",
-    "height_func_list / height_dict / height_max / determine_n_emitters are called on every generating set of every stabilizer state on <=2 (thorough <=3) qubits, on random states in three generating sets each up to 12 qubits and on graphs up to 40 vertices, and compared with rank_GF2(generators restricted to A) - |A| (itself checked against dense von Neumann entropies); every rref call is probed for state preservation and echelon shape; solver circuits are checked for n_emitters = max profile and one emission per photon.",
+    "height_func_list / height_dict / height_max / height_function (on the same arrays overwritten in place between states) / determine_n_emitters are called on every generating set of every stabilizer state on <=2 (thorough <=3) qubits, on random states in three generating sets each up to 12 qubits and on graphs up to 40 vertices, and compared with rank_GF2(generators restricted to A) - |A| (itself checked against dense von Neumann entropies); every rref call is probed for state preservation and echelon shape; solver circuits are checked for n_emitters = max profile and one emission per photon.",
     TRUST + "Known finding trs-isolated-vertex is reported, not hidden.", "DESIGN.md section 5, C03")
 
 add("C09", "runtime monitoring: boundary monitors on the LC-equivalence decision and its constructive outputs, judged by exhaustive local-complementation orbits and an independent Pauli-algebra/dense oracle; probe on the solution-basis finder",
